@@ -271,6 +271,30 @@ def selftest(ctx, cfgs):
     return {"mutant": "quantize_to_fit starting at minimum_qindex+1 (in-process monkeypatch)", "clauses_flagging_it": hit, "corrupted_field": note}
 
 
+def selftest_ld(ldi):
+    """A slice_y_length field taken one bit wider than 13.5.3.1 says (every budget one bit too small) must be flagged
+    on the constructed exact-fill pictures by C14.Smallest; a field one bit narrower by C14.Fits."""
+    from vc2_conformance.encoder import pictures as encp
+
+    pick = [x for x in ldi if x["inst"]["fill"] == "exact" and x["inst"]["b"] >= 2][:: max(1, len(ldi) // 120)][:40]
+    orig = encp.intlog2
+    out = {}
+    for name, delta, clause in (("wider", 1, "C14.Smallest"), ("narrower", -1, "C14.Fits")):
+        encp.intlog2 = lambda n, d=delta: max(0, orig(n) + d)
+        try:
+            recs = [ld_event((i + 1, x)) for i, x in enumerate(pick)]
+        finally:
+            encp.intlog2 = orig
+        for r in recs:
+            del r["spec_q"], r["got_out"]
+        bad, _, _ = judge(recs)
+        hit = sorted(set(b["clause"] for b in bad if b["alarm"]))
+        if clause not in hit:
+            raise RuntimeError("binding self-test failed: slice_y_length field one bit %s was not flagged by %s on %d constructed pictures (%s)" % (name, clause, len(pick), hit))
+        out["ld_length_field_one_bit_" + name] = {"pictures": len(pick), "flagged_pictures": len(set(b["line"] for b in bad if b["alarm"])), "clauses": hit}
+    return out
+
+
 def run(ctx):
     # ---- S + G: the search as a state machine
     import os
@@ -322,8 +346,8 @@ def run(ctx):
             raise RuntimeError("RateControlLD: action %s never taken" % a)
     ctx.add_tlc(res_ld, "RateControlLD exhaustive (low-delay pictures around power-of-two slice sizes, constructed exact fills)", ld_consts)
     ldi = cc.printed_json(res_ld, "LDI")
-    if len(ldi) != res_ld.coverage["Done"][0]:
-        raise RuntimeError("RateControlLD printed %d pictures, Done was taken %d times" % (len(ldi), res_ld.coverage["Done"][0]))
+    if not ldi or sum(len(x["slices"]) + 2 for x in ldi) != res_ld.distinct:
+        raise RuntimeError("RateControlLD printed %d pictures which account for %d of its %d states" % (len(ldi), sum(len(x["slices"]) + 2 for x in ldi), res_ld.distinct))
     ldi.sort(key=lambda x: json.dumps(x["inst"], sort_keys=True))
     ld_records = common.pmap(ld_event, [(50000 + i, x) for i, x in enumerate(ldi)])
     ld_stats = {"pictures": len(ldi), "slices": 0, "unequal_pictures": 0, "pictures_mixing_pow2_and_pow2_plus_1_byte_slices": 0, "exact_fill_slices": 0, "exact_fill_slices_above_minimum": 0, "exact_fill_small_slices_at_width_change": 0, "refused": 0, "index_differs_from_spec": 0}
@@ -416,9 +440,10 @@ def run(ctx):
                 {"job": jobs[j]},
             )
     st = selftest(ctx, cfgs)
+    st.update(selftest_ld(ldi))
     oos = sum(1 for r in pic_records for s in r["slices"] if s["oos"])
     qhist = {}
-    for r in pic_records:
+    for r in ld_records + pic_records:
         for s in r["slices"]:
             b = "q=qmin" if s["q"] == r["qmin"] else "q>qmin"
             qhist[b] = qhist.get(b, 0) + 1
@@ -428,7 +453,7 @@ def run(ctx):
     smp = pic_records[len(pic_records) // 2]
     ctx.coverage.update(
         {
-            "traces_validated_against_impl": len(pic_records) + replayed,
+            "traces_validated_against_impl": len(pic_records) + len(ld_records) + replayed,
             "evaluations": int(applied.get("slices", 0)) + replayed,
             "distinct_nontrivial": qhist.get("q>qmin", 0),
             "rule": "evaluations = slices of real coded pictures + TLC-generated quantize_to_fit instances judged by the C14 clauses; non-trivial = slice whose chosen qindex is above the minimum (minimality has something to refute)",
@@ -459,6 +484,7 @@ def run(ctx):
         }
     )
     ctx.assumptions += [
+        "low-delay boundary pictures (RateControlLD.tla) are fed to make_transform_data_ld_lossy as coefficient arrays (no picture, no wavelet transform, not serialised); their slice sizes are not measured -- the real-picture twins with the same picture_bytes values are",
         "pictures at most 16x8 luma samples; lossy configurations from CodecConfig.tla (both profiles, 1..12 slices, picture_bytes classes min/min+1/small/q0/scaler, minimum_qindex 0/3/20, minimum_slice_size_scaler 1..3)",
         "slice sizes are measured as the bytes the validator's hq_slice/ld_slice consume from the serialised stream",
     ]
